@@ -17,6 +17,10 @@ Definition fs_n (m : Q) : Z := fsc_out_len m.
 
 (** the shared refinement step (upsample/_create_mesh) for a landscape of length n *)
 Definition up_z (n j : Z) : Z := j - up_midpoint n.
+(** FSC: the lag of the j-th phase ramp of an axis whose search length is n (its own n: every axis has its own table) *)
+Definition fs_lag (n j : Z) : Z :=
+  if fsc_phase_lags_range && fsc_phases_per_axis && fsc_landscape_loops_zyx then j - fsc_phase_half n else 0.
+Definition fs_table_len (n : Z) : Z := if fsc_phase_lags_range then 2 * fsc_phase_half n + 1 else 0.
 Definition up_bounds (n j : Z) (m : Q) : Z * Z :=
   let s := mesh_shifts j (up_midpoint n) in
   mesh_bounds (mesh_left s m) (mesh_right s m).
